@@ -234,7 +234,9 @@ def finish(ctx, level, coverage, assumptions=None):
             new.append((key, what, replay))
     for key, what in seen_known.items():
         log("KNOWN-FINDING: property=%s %s [%s]" % (ctx.pid, open_keys[key]["what"], key))
-    os.makedirs(os.path.join(VERIF, "evidence", "replay"), exist_ok=True)
+    # a run against a scratch worktree (seeded change) must not overwrite the evidence of the real tree
+    evdir = os.environ.get("VERIF_EVIDENCE_DIR") or os.path.join(VERIF, "evidence")
+    os.makedirs(os.path.join(evdir, "replay"), exist_ok=True)
     coverage = dict(coverage)
     coverage.setdefault("states", ctx.states)
     coverage.setdefault("transitions", ctx.transitions)
@@ -243,7 +245,7 @@ def finish(ctx, level, coverage, assumptions=None):
     ev = dict(property_id=ctx.pid, tier=ctx.tier, seed=ctx.seed, level=level, coverage=coverage,
               assumptions=assumptions or ctx.assumptions, wall_s=round(time.time() - ctx.t0, 2),
               violations=len(new))
-    with open(os.path.join(VERIF, "evidence", ctx.pid + ".json"), "w") as fh:
+    with open(os.path.join(evdir, ctx.pid + ".json"), "w") as fh:
         json.dump(ev, fh, indent=1, default=str)
         fh.write("\n")
     if new:
@@ -252,7 +254,7 @@ def finish(ctx, level, coverage, assumptions=None):
             if key in shown:
                 continue
             shown.add(key)
-            rp = os.path.join(VERIF, "evidence", "replay", "%s_%s.json" % (ctx.pid, hashlib.sha1(key.encode()).hexdigest()[:10]))
+            rp = os.path.join(evdir, "replay", "%s_%s.json" % (ctx.pid, hashlib.sha1(key.encode()).hexdigest()[:10]))
             with open(rp, "w") as fh:
                 json.dump(dict(property=ctx.pid, key=key, what=what, replay=replay), fh, indent=1, default=str)
             log("VIOLATION property=%s replay=%s key=%s :: %s" % (ctx.pid, rp, key, what))
